@@ -642,6 +642,68 @@ func obsEdgeKW(srcp, dstp []any, depth int) map[string]any {
 	return map[string]any{"k": "edgekw", "in": map[string]any{"src": srcp, "dst": dstp, "depth": depth}, "out": out}
 }
 
+// imp: a set of files that only import each other (`k0: @f1` lines); the model predicts whether a cyclic import is
+// refused.  graph = [[file, [imported files...]], ...], the first entry is index.
+func impText(targets []any) string {
+	var b strings.Builder
+	for i, t := range targets {
+		fmt.Fprintf(&b, "k%d: @%s\n", i, t.(string))
+	}
+	if len(targets) == 0 {
+		b.WriteString("leaf\n")
+	}
+	return b.String()
+}
+
+func obsImp(graph []any) map[string]any {
+	files := map[string]string{}
+	src := ""
+	for _, e := range graph {
+		p := e.([]any)
+		name, targets := p[0].(string), p[1].([]any)
+		if name == "index" {
+			src = impText(targets)
+		}
+		files[name+".d2"] = impText(targets)
+	}
+	r := compileRemote(src, files)
+	out := map[string]any{"outcome": r.outcome}
+	if r.site != "" {
+		out["site"] = r.site
+	}
+	if r.msg != "" {
+		out["msg"] = r.msg
+	}
+	cyc, other := 0, 0
+	for _, e := range r.errs {
+		if strings.Contains(e["msg"].(string), "detected cyclic import chain") {
+			cyc++
+		} else {
+			other++
+		}
+	}
+	out["cyclic"] = cyc
+	out["othererrs"] = other
+	return map[string]any{"k": "imp", "in": map[string]any{"graph": graph}, "out": out}
+}
+
+func genImpGraph(r *rand.Rand) []any {
+	names := []string{"index", "f0", "f1", "f2", "f3"}[:2+r.Intn(4)]
+	var g []any
+	for _, n := range names {
+		k := r.Intn(3)
+		if n == "index" {
+			k = 1 + r.Intn(2)
+		}
+		ts := []any{}
+		for j := 0; j < k; j++ {
+			ts = append(ts, names[r.Intn(len(names))])
+		}
+		g = append(g, []any{n, ts})
+	}
+	return g
+}
+
 func anys(xs []string) []any {
 	out := make([]any, len(xs))
 	for i, x := range xs {
@@ -667,6 +729,8 @@ func replay(c *hl.Ctx, cs map[string]any) {
 		c.Emit(obsArr(in["kinds"].([]any)))
 	case "theme":
 		c.Emit(obsTheme(in["fields"].([]any)))
+	case "imp":
+		c.Emit(obsImp(in["graph"].([]any)))
 	case "edgekw":
 		c.Emit(obsEdgeKW(in["src"].([]any), in["dst"].([]any), int(in["depth"].(float64))))
 	}
@@ -689,6 +753,18 @@ var corpus = []struct {
 	{"vars: {a: {b: c}}\nx: {...${a}}\n***.shape: circle\n", nil},
 	{"a: @x\n", map[string]string{"x.d2": "b: @y\n", "y.d2": "c: @x\n"}},
 	{"a: @index\n", nil},
+	{"d: {shape: class; f0}\nd: {c: {_.A.B <-> b}}\n", nil},
+	{"shape: sql_table\nA: {\n_.z.y -> b\n}\n", nil},
+	{"classes: {a: {class: a}}\nx.class: a\n", nil},
+	{"vars: {\nv1: {\na: ${v1}\n}\n}\n", nil},
+	{"c: {\n_ -> _._.x\n}\n", nil},
+	{"Constraint.x: 1\n", nil},
+	{"vars: {v: [p; q]; c: ${v.in}}\n", nil},
+	{"steps: {\nb: {\n_.B: [x]\n}\n}\n", nil},
+	{"A.b\nA*: @x\n", map[string]string{"x.d2": "layers: {\ns1: {\nq\n}\n}\n"}},
+	{"...${cfg}\nscenarios: {\ns1: {\n}\n}\n", nil},
+	{"vars: {\nx: |md a|\n...${cfg}\n}\n", nil},
+	{"a: b: c\n**.a: {\n&connected: {q: r}\n}\n", nil},
 	{"", nil},
 	{"a -> b -> c\n(a -> b)[0].style.stroke: red\n", nil},
 }
@@ -793,6 +869,16 @@ func run(c *hl.Ctx) error {
 		}
 		c.Emit(obsEdgeKW(mk(), mk(), r.Intn(3)))
 		c.Count("edgekw")
+	}
+	// --- leaf: import stack / cycle test
+	for i, n := 0, c.Pick(400, 20000); i < n; i++ {
+		m := obsImp(genImpGraph(r))
+		if m["out"].(map[string]any)["cyclic"].(int) > 0 {
+			c.Count("imp:cyclic")
+		} else {
+			c.Count("imp:acyclic")
+		}
+		c.Emit(m)
 	}
 	// --- whole compiler
 	n := c.Pick(7000, 300000)
